@@ -617,6 +617,7 @@ fn exec_det(case: &Case, ex: &mut Exec) {
     let mut next = 0usize;
     let mut retired_then_ran = false;
     let mut idled = false;
+    let mut max_live = 0usize;
     prune_helpers();
     if !wait_alone() {
         ex.fail("C17:harness-threads", "threads of an earlier case never went away");
@@ -674,6 +675,7 @@ fn exec_det(case: &Case, ex: &mut Exec) {
                                     retired_then_ran = true;
                                 }
                                 let live = quiet(ex);
+                                max_live = max_live.max(live);
                                 ex.tag("det:disp-ok");
                                 format!("ok j={j} w={bw} live={live} run={}", sh.running())
                             }
@@ -775,6 +777,20 @@ fn exec_det(case: &Case, ex: &mut Exec) {
         ex.fail("C17:thread-leak", "pool threads survive the pool");
     }
     final_monitors(ex, &sh, limit, &accepted, &refused, &finished, &kinds);
+    // One dispatcher and quiescence after every operation: at most one spawn is ever in flight, so the F10
+    // race cannot happen here (Props.C17.live_le_limit_of_serial_spawns) and the bound is the property itself.
+    for f in ex.failures.iter_mut() {
+        if f.sig == "F10:asyncify-limit-overshoot" {
+            f.sig = "C17:limit-exceeded".into();
+            f.detail = format!("{} although a single dispatcher waited for quiescence after every dispatch (no spawn race possible)", f.detail);
+        }
+    }
+    if limit > 0 && max_live > limit {
+        ex.fail(
+            "C17:limit-exceeded",
+            format!("limit={limit} observed={max_live} live pool threads with a single dispatcher that waited for quiescence after every dispatch"),
+        );
+    }
     if retired_then_ran {
         ex.tag("det:ran-after-retirement");
     }
@@ -1274,6 +1290,206 @@ fn exec_busyfd(w: &[&str], salt: u64, ex: &mut Exec) -> String {
     totals(&finished, 0)
 }
 
+fn payload_text(p: &(dyn std::any::Any + Send)) -> String {
+    if let Some(s) = p.downcast_ref::<String>() {
+        s.clone()
+    } else if let Some(s) = p.downcast_ref::<&str>() {
+        s.to_string()
+    } else {
+        "<opaque payload>".into()
+    }
+}
+
+/// what the collecting call showed
+enum Seen {
+    Value(usize),
+    Error(String),
+    Unwound(String),
+    Nothing(String),
+}
+
+/// `collect <limit> <timeout_ms> <u|p> <path> <v|e|p> <tag>`: one blocking job that returns a value, returns an
+/// io error or panics with the payload `c17-payload-<tag>`, collected through one public path:
+/// `pop`, `popx` (`Proactor::pop_with_extra`), `cancel` (`Proactor::cancel` of a completed key), `submit`
+/// (`Runtime::submit(..).await`), `submitx` (`.with_extra().await`), `spawnb` (`spawn_blocking` JoinHandle +
+/// `resume_unwind`).  A panicking job must make the collecting call unwind with the job's payload
+/// (`C17:panic-not-propagated`).
+fn exec_collect(w: &[&str], ex: &mut Exec) -> String {
+    let (Ok(limit), Ok(tmo), Ok(tag)) = (w[1].parse::<usize>(), w[2].parse::<u64>(), w[6].parse::<u64>()) else {
+        return "bad-op".into();
+    };
+    let dt = match w[3] {
+        "u" => DriverType::IoUring,
+        "p" => DriverType::Poll,
+        _ => return "bad-op".into(),
+    };
+    let path = w[4].to_string();
+    let kind = w[5].as_bytes()[0];
+    if limit == 0 || !matches!(path.as_str(), "pop" | "popx" | "cancel" | "submit" | "submitx" | "spawnb") || !matches!(kind, b'v' | b'e' | b'p') || w[5].len() != 1 {
+        return "bad-op".into();
+    }
+    let expect_payload = format!("c17-payload-{tag}");
+    let payload = expect_payload.clone();
+    let runs = Arc::new(AtomicUsize::new(0));
+    let runs2 = runs.clone();
+    let path2 = path.clone();
+    let h = helper(move || -> Seen {
+        let runs = runs2;
+        let path = path2;
+        let mut pb = Proactor::builder();
+        pb.driver_type(dt).thread_pool_limit(limit).thread_pool_recv_timeout(Duration::from_millis(tmo));
+        let ended = Arc::new(AtomicUsize::new(0));
+        let ended2 = ended.clone();
+        // the job body (for the driver and `submit` paths)
+        let body = move || -> BufResult<usize, ()> {
+            runs.fetch_add(1, SeqCst);
+            struct E(Arc<AtomicUsize>);
+            impl Drop for E {
+                fn drop(&mut self) {
+                    self.0.fetch_add(1, SeqCst);
+                }
+            }
+            let _e = E(ended2);
+            match kind {
+                b'v' => BufResult(Ok(tag as usize + 1000), ()),
+                b'e' => BufResult(Err(std::io::Error::from_raw_os_error(libc::EDOM)), ()),
+                _ => panic!("{}", payload),
+            }
+        };
+        let show = |r: std::io::Result<usize>| match r {
+            Ok(v) => Seen::Value(v),
+            Err(e) => Seen::Error(format!("{:?} {e}", e.kind())),
+        };
+        let unwound = |p: Box<dyn std::any::Any + Send>| Seen::Unwound(payload_text(&*p));
+        match path.as_str() {
+            "pop" | "popx" | "cancel" => {
+                let mut driver = match pb.build() {
+                    Ok(d) => d,
+                    Err(e) => return Seen::Nothing(format!("build: {e}")),
+                };
+                let mut key = match driver.push(Asyncify::new(body)) {
+                    PushEntry::Pending(k) => k,
+                    PushEntry::Ready(_) => return Seen::Nothing("push completed synchronously".into()),
+                };
+                let t0 = Instant::now();
+                while ended.load(SeqCst) == 0 {
+                    if t0.elapsed() > Duration::from_secs(8) {
+                        return Seen::Nothing("the job never ran".into());
+                    }
+                    thread::sleep(Duration::from_micros(200));
+                }
+                if path == "cancel" {
+                    // let the driver take the completion in, then cancel the completed operation
+                    thread::sleep(Duration::from_millis(20));
+                    for _ in 0..5 {
+                        let _ = driver.poll(Some(Duration::from_millis(10)));
+                    }
+                    return match catch_unwind(AssertUnwindSafe(|| driver.cancel(key))) {
+                        Ok(Some(BufResult(r, _))) => show(r),
+                        Ok(None) => Seen::Nothing("cancel of the completed operation returned None".into()),
+                        Err(p) => unwound(p),
+                    };
+                }
+                loop {
+                    let _ = driver.poll(Some(Duration::from_millis(5)));
+                    if t0.elapsed() > Duration::from_secs(12) {
+                        return Seen::Nothing("the result never arrived".into());
+                    }
+                    if path == "pop" {
+                        match catch_unwind(AssertUnwindSafe(|| driver.pop(key))) {
+                            Ok(PushEntry::Ready(BufResult(r, _))) => return show(r),
+                            Ok(PushEntry::Pending(k)) => key = k,
+                            Err(p) => return unwound(p),
+                        }
+                    } else {
+                        match catch_unwind(AssertUnwindSafe(|| driver.pop_with_extra(key))) {
+                            Ok(PushEntry::Ready((BufResult(r, _), _extra))) => return show(r),
+                            Ok(PushEntry::Pending(k)) => key = k,
+                            Err(p) => return unwound(p),
+                        }
+                    }
+                }
+            }
+            _ => {
+                let rt = match compio_runtime::Runtime::builder().with_proactor(pb).build() {
+                    Ok(r) => r,
+                    Err(e) => return Seen::Nothing(format!("runtime build: {e}")),
+                };
+                let r = catch_unwind(AssertUnwindSafe(|| {
+                    rt.block_on(async {
+                        match path.as_str() {
+                            "submit" => rt.submit(Asyncify::new(body)).await.0,
+                            "submitx" => rt.submit(Asyncify::new(body)).with_extra().await.0.0,
+                            _ => {
+                                use compio_runtime::ResumeUnwind;
+                                let jh = rt.spawn_blocking(move || body().0);
+                                match jh.await.resume_unwind() {
+                                    Some(r) => r,
+                                    None => Err(std::io::Error::other("spawn_blocking task cancelled")),
+                                }
+                            }
+                        }
+                    })
+                }));
+                match r {
+                    Ok(r) => show(r),
+                    Err(p) => unwound(p),
+                }
+            }
+        }
+    });
+    let t0 = Instant::now();
+    while !h.is_finished() && t0.elapsed() < Duration::from_secs(30) {
+        thread::sleep(Duration::from_millis(1));
+    }
+    if !h.is_finished() {
+        ABANDONED.store(true, SeqCst);
+        ex.fail("C17:dispatch-starved", format!("collecting through {path} on the {} driver did not end within 30 s", driver_name(dt)));
+        return "got nothing".into();
+    }
+    let seen = h.join().unwrap_or_else(|_| Seen::Nothing("the collecting thread panicked outside the collecting call".into()));
+    let c = runs.load(SeqCst);
+    if c != 1 {
+        ex.fail("C17:exactly-once", format!("the blocking job ran {c} times (path {path})"));
+    }
+    ex.tag(format!("collect:{path}:{}", kind as char));
+    ex.nontrivial = true;
+    let what = format!("path {path}, {} driver", driver_name(dt));
+    match (kind, seen) {
+        (b'v', Seen::Value(v)) if v == tag as usize + 1000 => "got value".into(),
+        (b'e', Seen::Error(_)) => "got error".into(),
+        (b'p', Seen::Unwound(p)) if p == expect_payload => format!("got unwind {expect_payload}"),
+        (b'p', Seen::Unwound(p)) => {
+            ex.fail("C17:panic-not-propagated", format!("{what}: the job panicked with \"{expect_payload}\" but the collecting call unwound with \"{p}\""));
+            "got unwind other".into()
+        }
+        (b'p', Seen::Value(v)) => {
+            ex.fail("C17:panic-not-propagated", format!("{what}: the job panicked with \"{expect_payload}\" but the collecting call returned Ok({v})"));
+            "got value".into()
+        }
+        (b'p', Seen::Error(e)) => {
+            ex.fail("C17:panic-not-propagated", format!("{what}: the job panicked with \"{expect_payload}\" but the collecting call returned Err({e}) instead of unwinding"));
+            "got error".into()
+        }
+        (_, Seen::Nothing(m)) => {
+            ex.fail("C17:result", format!("{what}: {m}"));
+            "got nothing".into()
+        }
+        (_, Seen::Value(v)) => {
+            ex.fail("C17:result", format!("{what}: Ok({v}) came back"));
+            "got value".into()
+        }
+        (_, Seen::Error(e)) => {
+            ex.fail("C17:result", format!("{what}: Err({e}) came back"));
+            "got error".into()
+        }
+        (_, Seen::Unwound(p)) => {
+            ex.fail("C17:result", format!("{what}: the collecting call unwound with \"{p}\" although the job did not panic"));
+            "got unwind other".into()
+        }
+    }
+}
+
 /// `parked <limit> <timeout_ms> <u|p> <hold_ms> <poll_timeout_ms>`: a pool shared with a foreign dispatcher
 /// whose jobs hold every thread for `hold_ms`; the driver pushes a blocking job meanwhile and then sleeps in
 /// `poll(poll_timeout)`.  The refused submission is retried by the submitting driver itself, so the job must
@@ -1678,7 +1894,7 @@ fn exec_inner(case: &Case) -> Exec {
     let first: Vec<&str> = case.lines.first().map(|l| l.split_whitespace().collect()).unwrap_or_default();
     match first.first().copied() {
         Some("hist") => exec_hist(case, &mut ex),
-        Some("conc") | Some("prx") | Some("burst") | Some("busyfd") | Some("parked") => {
+        Some("conc") | Some("prx") | Some("burst") | Some("busyfd") | Some("parked") | Some("collect") => {
             let salt = checksum(case.name.as_bytes());
             for line in &case.lines {
                 let w: Vec<&str> = line.split_whitespace().collect();
@@ -1688,6 +1904,7 @@ fn exec_inner(case: &Case) -> Exec {
                     Some("burst") if w.len() == 7 => exec_burst(&w, salt, &mut ex),
                     Some("busyfd") if w.len() == 5 => exec_busyfd(&w, salt, &mut ex),
                     Some("parked") if w.len() == 6 => exec_parked(&w, salt, &mut ex),
+                    Some("collect") if w.len() == 7 => exec_collect(&w, &mut ex),
                     _ => "bad-op".into(),
                 };
                 ex.out.push(out);
@@ -1892,6 +2109,34 @@ fn generate_inner(tier: &str, rng: &mut Rng) -> Vec<Case> {
             .collect();
         let (op, extra) = if i % 3 == 2 { ("prx", if rng.chance(1, 2) { "u " } else { "p " }) } else { ("conc", "") };
         cases.push(Case { name: format!("strand/{i}"), lines: vec![conc_line(op, limit, tmo, extra, &scripts)] });
+    }
+    // 4a. saturation by one dispatcher (the bound without any spawn race), limits 1, 2, 3, 8
+    for (i, &limit) in [1usize, 2, 3, 8].iter().enumerate() {
+        let mut lines = vec![format!("pool {limit} 20000")];
+        let n = limit + 2 + rng.below(3) as usize;
+        for _ in 0..n {
+            lines.push("disp v".into());
+        }
+        let mut ids: Vec<usize> = (0..n).collect();
+        while !ids.is_empty() {
+            let j = ids.remove(rng.below(ids.len() as u64) as usize);
+            lines.push(format!("fin {j}"));
+            if rng.chance(1, 3) {
+                lines.push("disp v".into());
+            }
+        }
+        cases.push(Case { name: format!("det/sat/{i}"), lines });
+    }
+    // 4c. every public way to collect the result of a blocking job, for value / error / panicking jobs
+    let mut k = 0;
+    for path in ["pop", "popx", "cancel", "submit", "submitx", "spawnb"] {
+        for kind in ["v", "e", "p"] {
+            for dt in ["u", "p"] {
+                let tag = rng.below(100_000);
+                cases.push(Case { name: format!("collect/{k}"), lines: vec![format!("collect {} 1000 {dt} {path} {kind} {tag}", rng.range(1, 3))] });
+                k += 1;
+            }
+        }
     }
     // 4b. results while a file descriptor is ready on every poll; a shared pool freed by a foreign dispatcher
     for i in 0..if thorough { 60 } else { 8 } {
